@@ -222,9 +222,10 @@ def number (s : List Char) (prec : Int) : List Char :=
 
 /-- carry into the integer digits after the first one, from the right: nines become zeros -/
 def incTail (l : List Char) : List Char × Bool :=
-  match (l.reverse.span (· == '9')) with
-  | (nines, []) => (List.replicate nines.length '0', true)
-  | (nines, c :: r) => ((List.replicate nines.length '0' ++ incChar c :: r).reverse, false)
+  let nines := (l.reverse.takeWhile (· == '9')).length
+  match l.reverse.dropWhile (· == '9') with
+  | [] => (List.replicate nines '0', true)
+  | c :: r => ((List.replicate nines '0' ++ incChar c :: r).reverse, false)
 
 /-- increment an integer digit string (Decimal: `99` becomes `100`) -/
 def incInt : List Char → List Char
@@ -234,30 +235,38 @@ def incInt : List Char → List Char
     | (r', true) => if c == '9' then '1' :: r' ++ ['0'] else incChar c :: r'
     | (r', false) => c :: r'
 
+/-- precision branch of `Decimal` when the fraction is cut after `k` digits -/
+def roundDAt (ip fp : List Char) (k : Nat) : List Char × List Char :=
+  if k < fp.length then
+    let st := incStrip (fp.take k) (ge5At fp k)
+    if st.2 then (incInt ip, []) else (ip, st.1)
+  else (ip, fp)
+
 /-- precision branch of `Decimal` (only fraction digits are dropped), `0 < p`, `ip.length ≤ p` -/
 def roundD (ip fp : List Char) (p : Nat) : List Char × List Char :=
-  let lz := if ip.isEmpty then fp.length - (dropZeros fp).length else 0
-  let k := lz + p - ip.length
-  if k < fp.length then
-    let (t, pend) := incStrip (fp.take k) (ge5At fp k)
-    if pend then (incInt ip, []) else (ip, t)
-  else (ip, fp)
+  roundDAt ip fp ((if ip.isEmpty then fp.length - (dropZeros fp).length else 0) + p - ip.length)
+
+/-- the precision step of `Decimal`: applied when `0 < prec` and the integer part has at most `prec` digits -/
+def rndD (prec : Int) (ip fp : List Char) : List Char × List Char :=
+  if 0 < prec && decide ((ip.length : Int) ≤ prec) then roundD ip fp prec.toNat else (ip, fp)
+
+/-- `Decimal` after the sign has been split off -/
+def decimalCore (neg : Bool) (body : List Char) (prec : Int) : List Char :=
+  let sp := splitFirstDot body
+  let hasDot := sp.2.isSome
+  let dropped := min (sp.1.length - (dropZeros sp.1).length) (body.length - 1)
+  let ip := sp.1.drop dropped
+  let fp := dropTrail '0' (sp.2.getD [])
+  if hasDot && fp.isEmpty && ip.isEmpty then ['0'] else
+  if !hasDot && ip == ['0'] then ['0'] else
+  let r := rndD prec ip fp
+  sgn neg (r.1 ++ (if r.2.isEmpty then [] else '.' :: r.2))
 
 /-- `minify.Decimal(num, prec)` -/
 def decimal (s : List Char) (prec : Int) : List Char :=
   if s.length ≤ 1 then s else
   let neg := s.head? == some '-'
   let signed := neg || s.head? == some '+'
-  let body := if signed then s.drop 1 else s
-  let (ipart, fo) := splitFirstDot body
-  let hasDot := fo.isSome
-  let fpart := fo.getD []
-  let dropped := min (ipart.length - (dropZeros ipart).length) (body.length - 1)
-  let ip := ipart.drop dropped
-  let fp := dropTrail '0' fpart
-  if hasDot && fp.isEmpty && ip.isEmpty then ['0'] else
-  if !hasDot && ip == ['0'] then ['0'] else
-  let (ip, fp) := if 0 < prec && decide ((ip.length : Int) ≤ prec) then roundD ip fp prec.toNat else (ip, fp)
-  sgn neg (ip ++ (if fp.isEmpty then [] else '.' :: fp))
+  decimalCore neg (if signed then s.drop 1 else s) prec
 
 end Verif.Model.Num
